@@ -183,9 +183,14 @@ class Fn:
     def run(self):
         chk = self.chk
         col = Collector()
+        # proof queries: array extensionality off (z3 otherwise drowns in extensionality over the arrays nested in the
+        # protobuf datatypes).  That only weakens the solver: `unsat` stays sound; a `sat` of a proof query is therefore NOT
+        # taken as definite here -- it must be confirmed by a model query (default parameters) or it is `undecided`.
+        z3.set_param('smt.array.extensional', False)
         verify.verify_function(col, self.fname, self.entry_of(None), self.post, timeout_ms=self.timeout_ms,
                                expect_paths=self.expect_paths, known=self.known, workers=self.workers, rename=self.rename,
                                on_violation=self._on_violation(None), path_timeout_ms=3000)
+        z3.set_param('smt.array.extensional', True)
         for a in col.assumptions:
             chk.assume(a)
         open_ = [o for o in col.obs if o['result'] in (report.UNDECIDED, report.VIOLATED) and not o['reproduced']]
@@ -201,6 +206,12 @@ class Fn:
                 det = {'proof_query': o['result'], 'model_query': 'sat at sizes %s' % (r['sizes'],)}
                 chk.obligation(n, self.fname, 'z3', report.VIOLATED, o['time_s'] + r['time_s'], detail=det, model=r['model'],
                                replay=r['replay'], reproduced=r['reproduced'])
+                continue
+            if o['result'] == report.VIOLATED and not o['reproduced']:
+                det = dict(o['detail'] or {})
+                det['reason'] = 'proof query sat (array extensionality off: not definite); no counter-model at the bounded sizes %s' % (list(self.bounded_sizes),)
+                det['solver_output'] = (o['model'] or '')[:1500]
+                chk.obligation(n, o['function'], o['backend'], report.UNDECIDED, o['time_s'], detail=det)
                 continue
             chk.obligation(n, o['function'], o['backend'], o['result'], o['time_s'], detail=o['detail'], model=o['model'],
                            replay=o['replay'], reproduced=o['reproduced'], finding=o['finding'])
@@ -792,9 +803,12 @@ def _list_trials(it, args, kw):
     k0 = len(run.axioms)
     L = _orig_list_trials(it, args, kw)
     if hasattr(run, 'c11'):
+        # the C11 clauses relate the response to the list returned by list_trials; that this list is the study's stored
+        # trials in creation order is the DataStore contract itself (Appendix A).  Its quantified statement is not used
+        # here (dropping hypotheses is sound) -- together with the provenance invariants it forms a matching loop.
+        del run.axioms[k0:]
         run.c11['raw'] = M.snapshot(L)
     if pin is not None:
-        del run.axioms[k0:]
         run.assume(L.n == pin)
         L.n = z3.IntVal(pin)
         run.c11['raw'] = M.snapshot(L)
@@ -825,6 +839,7 @@ def lot_entry(d):
                 run.assume(z3.Distinct(*[m for m, _ in metrics]))
             run.ghost['c11.src1'] = z3.K(z3.IntSort(), z3.IntVal(0))
             run.ghost['c11.src3'] = z3.K(z3.IntSort(), z3.IntVal(0))
+            run.np_defer_facts = True
             run.c11 = dict(metrics=metrics, roles=LOT_ROLES, sk=sk, req=req, mlen=None if sz is None else sz[1], pin_n=None if sz is None else sz[0])
             cls = ModuleInfo.get(SVC).classes['VizierServicer']
             return it.invoke(E.FuncVal(cls.mod, cls.methods['ListOptimalTrials'], cls), [svc, req, None], {})
@@ -878,6 +893,10 @@ def lot_post(d):
             return obs
         C, V, OB, src1, src3 = g['C'], g['V'], g['OB'], g['src1'], g['src3']
         nc = C.n
+        if not g.get('deferred_added'):
+            g['deferred_added'] = True
+            for f in getattr(run, 'np_deferred', []):      # list(optimal_booleans)[j] == optimal_booleans[j]
+                NP.fact(run, f)
         w = lambda j: src1[src3[j]]
         # lemmas (cut rule: each proved from the loop-exit invariants, then available to the clauses below)
         obs.append((pre + '.lemma.numpy_block_is_dominance',
@@ -890,7 +909,15 @@ def lot_post(d):
                     z3.Implies(in_r, z3.And(src3[j0] >= 0, src3[j0] < nc, ra[j0] == C.arr[src3[j0]], OB.arr[src3[j0]])), 'lemma'))
         obs.append((pre + '.considered', z3.Implies(in_r, cons(g, ra[j0]))))
         obs.append((pre + '.iff.reported_meets_spec', z3.Implies(in_r, z3.And(w(j0) >= 0, w(j0) < n, ra[j0] == raw.arr[w(j0)], spec_reported(g, raw, w(j0))))))
-        obs.append((pre + '.iff.spec_is_reported', z3.Implies(z3.And(i0 >= 0, i0 < n, spec_reported(g, raw, i0)), QE(nr, lambda j: w(j) == i0))))
+        # proof script for "every trial meeting the specification is reported" (each step is an obligation; DESIGN 2.3):
+        #   obtain c1 < nc with considered[c1] = raw[i0]; use numpy_block_is_dominance at c1; use loop-3 completeness at c1
+        c1 = z3.Int('c1!p')
+        hyp0 = z3.And(i0 >= 0, i0 < n, cons(g, raw.arr[i0]))
+        K = lambda c: z3.And(c >= 0, c < nc, src1[c] == i0, C.arr[c] == raw.arr[i0])
+        obs.append((pre + '.iff.spec_is_reported.obtain_considered_index', z3.Implies(hyp0, QE(nc, K)), 'lemma'))
+        obs.append((pre + '.iff.spec_is_reported.use_numpy_block', z3.Implies(K(c1), OB.arr[c1] == z3.Not(QE(nc, lambda j2: dom_trials(g, C.arr[j2], C.arr[c1])))), 'lemma'))
+        obs.append((pre + '.iff.spec_is_reported.use_filter_complete', z3.Implies(z3.And(K(c1), OB.arr[c1]), QE(nr, lambda j: src3[j] == c1)), 'lemma'))
+        obs.append((pre + '.iff.spec_is_reported', z3.Implies(z3.And(hyp0, spec_reported(g, raw, i0), K(c1)), QE(nr, lambda j: w(j) == i0))))
         obs.append((pre + '.order', z3.Implies(z3.And(j0 >= 0, j0 < j1, j1 < nr), w(j0) < w(j1))))
         obs.append((pre + '.no_nan_objective', z3.Implies(in_r, nan_free(ra[j0]))))
         return obs
@@ -937,28 +964,85 @@ def lot_replay(d):
 LOT_ROLES = None
 
 
-def check_list_optimal(chk, tier):
+# ------------------------------------------------------------------------------------------ main
+def _child(conn, fn, tier, args):
+    try:
+        sub = report.Check('C11', tier)
+        fn(sub, tier, *args)
+        state = {k: getattr(sub, k) for k in ('obligations', 'functions', 'assumptions', 'trusted', 'bounded', 'notes', 'violations',
+                                               'known_lines', 'errors', 'backends', 'solver_time')}
+        conn.send(('ok', state))
+    except BaseException:      # a traceback in a task is a checker error, never a verdict
+        import traceback
+        conn.send(('error', traceback.format_exc()[-3000:]))
+    finally:
+        conn.close()
+
+
+def run_parallel(chk, tier, tasks, budget_s):
+    """each task (name, fn, args) runs in its own forked process with its own Check; the states are merged in task order"""
+    import multiprocessing
+    ctx = multiprocessing.get_context('fork')
+    procs = []
+    for name, fn, args in tasks:
+        a, b = ctx.Pipe(duplex=False)
+        pr = ctx.Process(target=_child, args=(b, fn, tier, args))
+        pr.start()
+        b.close()
+        procs.append((name, pr, a))
+    t_end = time.time() + budget_s
+    for name, pr, a in procs:
+        msg = None
+        try:
+            if a.poll(max(t_end - time.time(), 1.0)):
+                msg = a.recv()
+        except EOFError:
+            msg = None
+        if msg is None:
+            pr.terminate()
+            chk.error('C11.%s.task' % name, 'the verification task did not finish within the budget (%ds) or died' % budget_s)
+            continue
+        pr.join(10)
+        if msg[0] == 'error':
+            chk.error('C11.%s.task' % name, 'uncaught exception in the checker (not a violation):\n' + msg[1])
+            continue
+        st = msg[1]
+        chk.obligations += st['obligations']
+        chk.functions.update(st['functions'])
+        for k in ('assumptions', 'trusted', 'known_lines', 'violations', 'errors', 'notes'):
+            for x in st[k]:
+                if x not in getattr(chk, k) or k in ('violations', 'errors'):
+                    getattr(chk, k).append(x)
+        chk.bounded += st['bounded']
+        for k, v in st['backends'].items():
+            chk.backends[k] = chk.backends.get(k, 0) + v
+        chk.solver_time += st['solver_time']
+
+
+def check_list_optimal_d(chk, tier, d):
     global LOT_ROLES
-    chk.function(SVC, LOT)
     try:
         LOT_ROLES = lot_register()
     except Unsupported as u:
         chk.error('VizierServicer.ListOptimalTrials.supported', str(u))
         return
+    tag = '[d=%d]' % d
+    rn = support_rename('C11.ListOptimalTrials')
+    known = lot_known(d) if chk.finding_for('C11.ListOptimalTrials.no_nan_objective') else None
+    Fn(chk, tier, LOT, lot_entry(d), lot_post(d), replay_of=lot_replay(d), known=known,
+       bounded_sizes=[(2, max(d, 1)), (3, max(d, 1))] if d else [(2, 1)],
+       rename=(lambda n, rn=rn, tag=tag: rn(n) + tag), workers=3, expect_paths=3,
+       timeout_ms=6000 if tier == 'quick' else 60000).run()
+
+
+def lot_preamble(chk, tier):
+    chk.function(SVC, LOT)
     chk.assume('the metric ids configured in study_spec.metrics are pairwise distinct')
-    chk.assume('ListOptimalTrials is verified for every number of stored trials and for 0..3 configured metrics (the dimension is '
-               'enumerated: the loop over the configured metrics is unrolled); datastore as the abstract DataStore contract (Appendix A)')
-    dims = (0, 1, 2) if tier == 'quick' else (0, 1, 2, 3)
-    for d in dims:
-        tag = '[d=%d]' % d
-        rn = support_rename('C11.ListOptimalTrials')
-        Fn(chk, tier, LOT, lot_entry(d), lot_post(d), replay_of=lot_replay(d), known=lot_known(d),
-           bounded_sizes=[(2, max(d, 1)), (3, max(d, 1))] if d else [(2, 1)],
-           rename=(lambda n, rn=rn, tag=tag: rn(n) + tag), workers=8, expect_paths=3,
-           timeout_ms=20000 if tier == 'quick' else 90000).run()
+    chk.assume('ListOptimalTrials is verified for every number of stored trials and for 0..%d configured metrics (the dimension is '
+               'enumerated: the loop over the configured metrics is unrolled); datastore as the abstract DataStore contract (Appendix A); '
+               'the C11 clauses are stated relative to the list returned by datastore.list_trials' % (2 if tier == 'quick' else 4))
 
 
-# ------------------------------------------------------------------------------------------ main
 def main(tier):
     chk = report.Check('C11', tier, level='proof',
                        technique='contract-based deductive verification: VCs from the real AST (pyvc symbolic execution, numpy fragment as '
@@ -968,7 +1052,24 @@ def main(tier):
               'numpy/jax fragment of pyvc/np_model.py (mask enumeration, argsort = sorting permutation, searchsorted, max, boolean sum, vmap = pointwise map)'):
         chk.trust(t)
     chk.assume('floats are extended reals (XReal): comparisons exact, inputs range over all reals, not only doubles')
-    check_naive(chk, tier)
-    check_rank(chk, tier)
-    check_list_optimal(chk, tier)
+    pool = ckit.ReplayPool()
+    for f in chk.findings:
+        w = f.get('witness') or {}
+        if f.get('status', 'open') == 'open' and w.get('driver') == 'replay/c11_replay.py':
+            pool.start(f['obligation'], 'c11_replay.py', w['args'])
+    lot_preamble(chk, tier)
+    tasks = [('naive', check_naive, ()), ('rank', check_rank, ())]
+    for d in ((0, 1, 2) if tier == 'quick' else (0, 1, 2, 3, 4)):
+        tasks.append(('ListOptimalTrials.d%d' % d, check_list_optimal_d, (d,)))
+    run_parallel(chk, tier, tasks, budget_s=50 if tier == 'quick' else 1500)
+    # every recorded finding must still reproduce on the real code (otherwise the entry is stale: checker error)
+    for f in chk.findings:
+        if f.get('status', 'open') != 'open' or f['obligation'] not in pool.procs and f['obligation'] not in pool.results:
+            continue
+        out, raw = pool.get(f['obligation'], timeout=120)
+        if not (out and out.get('reproduced')):
+            chk.error('C11.known_finding.stale', 'the witness of the recorded finding for %s no longer reproduces on the real code: %s'
+                      % (f['obligation'], (out if out is not None else raw[-600:])))
+        else:
+            chk.note('finding witness for %s re-confirmed on the real code.' % f['obligation'])
     return chk.finish(min_obligations=5)
